@@ -122,18 +122,26 @@ Definition path_after (o : Opts) (p : Prog) (tr : option prof) (c : cell) : cell
   let c := if o_module o then insert0 (o_cwd o) c else c in
   let c := match o_setup o with Some d => insert0 d c | None => c end in
   let c := if o_module o then c else insert0 (o_script_dir o) c in
-  if p_touch_path p && body_runs o p tr then append_cur "/prog-added" c else c.
+  let c := if p_touch_path p && body_runs o p tr then append_cur "/prog-added" c else c in
+  if p_rebind_path p && body_runs o p tr then rebind_with "/prog-rebound" c else c.
 
 Definition argv_after (cfg : Fixes) (o : Opts) (p : Prog) (tr : option prof) (c : cell) : cell :=
   let c := assign_argv cfg (o_new_argv o) c in
-  if p_touch_argv p && body_runs o p tr then append_cur "prog-added" c else c.
+  let c := if p_touch_argv p && body_runs o p tr then append_cur "prog-added" c else c in
+  if p_rebind_argv p && body_runs o p tr then rebind_with "prog-rebound" c else c.
 
 Definition tracing_after (cfg : Fixes) (o : Opts) (p : Prog) (n : Z) (tr : option prof) : option prof :=
   if registers o p && negb (fx_autoprof cfg) && negb (is_some tr) then Some (Ext n) else tr.
 
+(* g: the decorator as the setup file left it (that is what main snapshots and hands back) *)
 Definition gp_after (cfg : Fixes) (g : GP) (n : Z) : GP :=
   let g1 := overwrite g (Some (Ext n)) in
   if fx_profile cfg then set_enabled (f_enabled g) (set_profile (f_profile g) g1) else overwrite g1 None.
+
+Lemma cur_assign cfg v c : cur (assign_argv cfg v c) = v.
+Proof. unfold assign_argv, cur. destruct (fx_argv_inplace cfg); cbn; apply upd_same. Qed.
+
+Definition gp_setup (o : Opts) (g : GP) : GP := uses_gp (setup_uses o) (o_new_argv o) g.
 
 Definition timers_after (cfg : Fixes) (o : Opts) (p : Prog) (t : Z) : Z :=
   let timed := 0 <? o_interval o in
@@ -146,12 +154,12 @@ Definition builtin_after (cfg : Fixes) (o : Opts) (b : option prof) (n : Z) : op
 Lemma main_body_eq cfg o p s :
   main_body cfg o p s
   = (result_of (effective_outcome o p (builtin s) (tracing s)),
-     mkSt (argv_after cfg o p (tracing s) (argv s)) (path_after o p (tracing s) (path s)) (gp_after cfg (gp s) (next_prof s))
+     mkSt (argv_after cfg o p (tracing s) (argv s)) (path_after o p (tracing s) (path s)) (gp_after cfg (gp_setup o (gp s)) (next_prof s))
           (builtin_after cfg o (builtin s) (next_prof s)) (timers_after cfg o p (timers s)) (tracing_after cfg o p (next_prof s) (tracing s))
           (next_prof s + 1)).
 Proof.
-  unfold main_body, argv_after, path_after, gp_after, timers_after, builtin_after, tracing_after.
-  destruct s as [a pa g b t tr n]. cbn.
+  unfold main_body, argv_after, path_after, gp_after, timers_after, builtin_after, tracing_after, gp_setup.
+  destruct s as [a pa g b t tr n]. cbn. rewrite cur_assign.
   destruct (fx_builtin cfg); reflexivity.
 Qed.
 
@@ -170,7 +178,7 @@ Lemma main_eq cfg o p s :
   = (result_of (effective_outcome o p (builtin s) (tracing s)),
      mkSt (wrapped_cell cfg (result_of (effective_outcome o p (builtin s) (tracing s))) (argv s) (argv_after cfg o p (tracing s) (argv s)))
           (wrapped_cell cfg (result_of (effective_outcome o p (builtin s) (tracing s))) (path s) (path_after o p (tracing s) (path s)))
-          (gp_after cfg (gp s) (next_prof s))
+          (gp_after cfg (gp_setup o (gp s)) (next_prof s))
           (builtin_after cfg o (builtin s) (next_prof s)) (timers_after cfg o p (timers s)) (tracing_after cfg o p (next_prof s) (tracing s))
           (next_prof s + 1)).
 Proof.
@@ -184,17 +192,26 @@ Qed.
 Global Opaque main main_body.
 
 (* ---- cells ----------------------------------------------------------------------------- *)
-Lemma path_after_ref o p tr c : ref (path_after o p tr c) = ref c /\ cap (path_after o p tr c) = cap c.
+Lemma path_after_cap o p tr c : cap (path_after o p tr c) = cap c.
 Proof.
-  unfold path_after. destruct (o_module o), (o_setup o), (p_touch_path p && body_runs o p tr); cbn; auto.
+  unfold path_after. destruct (o_module o), (o_setup o), (p_touch_path p && body_runs o p tr), (p_rebind_path p && body_runs o p tr); reflexivity.
+Qed.
+
+Lemma path_after_ref o p tr c : p_rebind_path p = false -> ref (path_after o p tr c) = ref c.
+Proof.
+  intros H. unfold path_after. rewrite H.
+  destruct (o_module o), (o_setup o), (p_touch_path p && body_runs o p tr); reflexivity.
 Qed.
 
 Lemma argv_after_cap cfg o p tr c : cap (argv_after cfg o p tr c) = cap c.
-Proof. unfold argv_after, assign_argv. destruct (fx_argv_inplace cfg), (p_touch_argv p && body_runs o p tr); reflexivity. Qed.
+Proof.
+  unfold argv_after, assign_argv.
+  destruct (fx_argv_inplace cfg), (p_touch_argv p && body_runs o p tr), (p_rebind_argv p && body_runs o p tr); reflexivity.
+Qed.
 
 Lemma argv_after_ref_inplace cfg o p tr c :
-  fx_argv_inplace cfg = true -> ref (argv_after cfg o p tr c) = ref c.
-Proof. intros H. unfold argv_after, assign_argv. rewrite H. destruct (p_touch_argv p && body_runs o p tr); reflexivity. Qed.
+  fx_argv_inplace cfg = true -> p_rebind_argv p = false -> ref (argv_after cfg o p tr c) = ref c.
+Proof. intros H R. unfold argv_after, assign_argv. rewrite H, R. destruct (p_touch_argv p && body_runs o p tr); reflexivity. Qed.
 
 (* the write-back gives the name its old contents back when the decorator holds the
    object the name is (still / again) on *)
@@ -214,24 +231,24 @@ Qed.
 (* ---- one run --------------------------------------------------------------------------- *)
 Lemma run_path cfg o p s :
   restoring cfg (fst (main cfg o p s)) = true ->
-  (fx_at_call cfg = true \/ ref (path s) = cap (path s)) ->
+  (fx_at_call cfg = true \/ (ref (path s) = cap (path s) /\ p_rebind_path p = false)) ->
   let s' := snd (main cfg o p s) in
   cur (path s') = cur (path s) /\ ref (path s') = ref (path s) /\ cap (path s') = cap (path s).
 Proof.
   intros Hr H. rewrite main_eq in *. cbn [fst snd path] in *.
-  destruct (path_after_ref o p (tracing s) (path s)) as [R C].
-  apply wrapped_restores; [exact Hr|exact C|]. destruct H; [left; assumption|right; auto].
+  apply wrapped_restores; [exact Hr|apply path_after_cap|].
+  destruct H as [H|[H1 H2]]; [left; assumption|right]. split; [exact H1|apply path_after_ref; exact H2].
 Qed.
 
 Lemma run_argv cfg o p s :
   restoring cfg (fst (main cfg o p s)) = true ->
-  (fx_at_call cfg = true \/ (fx_argv_inplace cfg = true /\ ref (argv s) = cap (argv s))) ->
+  (fx_at_call cfg = true \/ (fx_argv_inplace cfg = true /\ ref (argv s) = cap (argv s) /\ p_rebind_argv p = false)) ->
   let s' := snd (main cfg o p s) in
   cur (argv s') = cur (argv s) /\ ref (argv s') = ref (argv s) /\ cap (argv s') = cap (argv s).
 Proof.
   intros Hr H. rewrite main_eq in *. cbn [fst snd argv] in *.
   apply wrapped_restores; [exact Hr|apply argv_after_cap|].
-  destruct H as [H|[H1 H2]]; [left; assumption|right]. split; [exact H2|apply argv_after_ref_inplace; exact H1].
+  destruct H as [H|(H1 & H2 & H3)]; [left; assumption|right]. split; [exact H2|apply argv_after_ref_inplace; assumption].
 Qed.
 
 Lemma overwrite_fields g p :
@@ -242,8 +259,8 @@ Proof. destruct g. cbn. auto. Qed.
 Lemma run_profile_fixed cfg o p s :
   fx_profile cfg = true ->
   let s' := snd (main cfg o p s) in
-  f_enabled (gp s') = f_enabled (gp s) /\ f_profile (gp s') = f_profile (gp s).
-Proof. intros H. rewrite main_eq. cbn [snd gp]. unfold gp_after. rewrite H. destruct (gp s). cbn. auto. Qed.
+  f_enabled (gp s') = f_enabled (gp_setup o (gp s)) /\ f_profile (gp s') = f_profile (gp_setup o (gp s)).
+Proof. intros H. rewrite main_eq. cbn [snd gp]. unfold gp_after. rewrite H. destruct (gp_setup o (gp s)). cbn. auto. Qed.
 
 (* the tree as it is: every run leaves the decorator "enabled" without a profiler *)
 Lemma run_profile_unfixed cfg o p s :
@@ -252,7 +269,7 @@ Lemma run_profile_unfixed cfg o p s :
   f_enabled (gp s') = Some true /\ f_profile (gp s') = None /\ usable (gp s') = false.
 Proof.
   intros H. rewrite main_eq. cbn [snd gp]. unfold gp_after. rewrite H. rewrite usable_spec.
-  destruct (gp s). cbn. auto.
+  destruct (gp_setup o (gp s)). cbn. auto.
 Qed.
 
 Lemma run_timers cfg o p s :
@@ -321,46 +338,45 @@ Proof.
 Qed.
 
 Lemma runs_path cfg rs : forall s,
-  all_restoring cfg s rs = true ->
-  (fx_at_call cfg = true \/ ref (path s) = cap (path s)) ->
+  all_restoring cfg s rs = true -> fx_at_call cfg = true ->
   let s' := exec_runs cfg s rs in
   cur (path s') = cur (path s) /\ ref (path s') = ref (path s) /\ cap (path s') = cap (path s).
 Proof.
   induction rs as [|[o p] t IH]; intros s Hr H; [cbn; auto|].
   cbn [all_restoring] in Hr. apply andb_prop in Hr as [Hp Ht].
-  destruct (run_path cfg o p s Hp H) as (A & B & C).
+  destruct (run_path cfg o p s Hp (or_introl H)) as (A & B & C).
   cbn [exec_runs].
-  assert (H' : fx_at_call cfg = true \/ ref (path (snd (main cfg o p s))) = cap (path (snd (main cfg o p s)))).
-  { destruct H as [H|H]; [left; exact H|right]. rewrite B, C. exact H. }
-  destruct (IH (snd (main cfg o p s)) Ht H') as (A' & B' & C').
+  destruct (IH (snd (main cfg o p s)) Ht H) as (A' & B' & C').
   cbn zeta in *. rewrite A', B', C', A, B, C. auto.
 Qed.
 
 Lemma runs_argv cfg rs : forall s,
-  all_restoring cfg s rs = true ->
-  (fx_at_call cfg = true \/ (fx_argv_inplace cfg = true /\ ref (argv s) = cap (argv s))) ->
+  all_restoring cfg s rs = true -> fx_at_call cfg = true ->
   let s' := exec_runs cfg s rs in
   cur (argv s') = cur (argv s) /\ ref (argv s') = ref (argv s) /\ cap (argv s') = cap (argv s).
 Proof.
   induction rs as [|[o p] t IH]; intros s Hr H; [cbn; auto|].
   cbn [all_restoring] in Hr. apply andb_prop in Hr as [Hp Ht].
-  destruct (run_argv cfg o p s Hp H) as (A & B & C).
+  destruct (run_argv cfg o p s Hp (or_introl H)) as (A & B & C).
   cbn [exec_runs].
-  assert (H' : fx_at_call cfg = true \/
-               (fx_argv_inplace cfg = true /\ ref (argv (snd (main cfg o p s))) = cap (argv (snd (main cfg o p s))))).
-  { destruct H as [H|[H1 H2]]; [left; exact H|right]. split; [exact H1|]. rewrite B, C. exact H2. }
-  destruct (IH (snd (main cfg o p s)) Ht H') as (A' & B' & C').
+  destruct (IH (snd (main cfg o p s)) Ht H) as (A' & B' & C').
   cbn zeta in *. rewrite A', B', C', A, B, C. auto.
 Qed.
 
+Lemma gp_setup_silent o g : setup_uses o = [] -> gp_setup o g = g.
+Proof. intros H. unfold gp_setup. rewrite H. reflexivity. Qed.
+
 Lemma runs_profile_fixed cfg rs : forall s,
-  fx_profile cfg = true ->
+  fx_profile cfg = true -> setup_silent rs = true ->
   let s' := exec_runs cfg s rs in
   f_enabled (gp s') = f_enabled (gp s) /\ f_profile (gp s') = f_profile (gp s).
 Proof.
-  induction rs as [|[o p] t IH]; intros s H; [cbn; auto|].
+  induction rs as [|[o p] t IH]; intros s H Q; [cbn; auto|].
+  cbn [setup_silent forallb fst] in Q. apply andb_prop in Q as [Q1 Q2].
+  assert (E : setup_uses o = []) by (destruct (setup_uses o); [reflexivity|discriminate]).
   cbn [exec_runs]. destruct (run_profile_fixed cfg o p s H) as [A B].
-  destruct (IH (snd (main cfg o p s)) H) as [A' B']. cbn zeta in *. rewrite A', B', A, B. auto.
+  rewrite (gp_setup_silent o _ E) in A, B.
+  destruct (IH (snd (main cfg o p s)) H Q2) as [A' B']. cbn zeta in *. rewrite A', B', A, B. auto.
 Qed.
 
 Lemma runs_profile_unfixed cfg rs : forall s,
@@ -406,7 +422,7 @@ Theorem tracing_clause cfg s rs :
 Proof. intros H. unfold tracing_ok. rewrite runs_tracing by exact H. apply oprof_eqb_refl. Qed.
 
 Theorem path_clause cfg s rs :
-  (fx_at_call cfg = true \/ ref (path s) = cap (path s)) ->
+  fx_at_call cfg = true ->
   (fx_finally cfg = true \/ no_exception cfg s rs = true) ->
   path_ok s (exec_runs cfg s rs) = true.
 Proof.
@@ -417,7 +433,7 @@ Proof.
 Qed.
 
 Theorem argv_clause cfg s rs :
-  (fx_at_call cfg = true \/ (fx_argv_inplace cfg = true /\ ref (argv s) = cap (argv s))) ->
+  fx_at_call cfg = true ->
   (fx_finally cfg = true \/ no_exception cfg s rs = true) ->
   argv_ok s (exec_runs cfg s rs) = true.
 Proof.
@@ -428,10 +444,10 @@ Proof.
 Qed.
 
 Theorem profile_clause cfg s rs :
-  fx_profile cfg = true -> usable (gp s) = true ->
+  fx_profile cfg = true -> usable (gp s) = true -> setup_silent rs = true ->
   profile_ok s (exec_runs cfg s rs) = true.
 Proof.
-  intros H U. destruct (runs_profile_fixed cfg rs s H) as [A B]. cbn zeta in *.
+  intros H U Q. destruct (runs_profile_fixed cfg rs s H Q) as [A B]. cbn zeta in *.
   unfold profile_ok, same_decision. rewrite usable_spec in *. rewrite A, B, U.
   rewrite obool_eqb_refl, oprof_eqb_refl. reflexivity.
 Qed.
@@ -447,30 +463,19 @@ Theorem restores_if_fixed cfg :
   fx_autoprof cfg = true ->
   C19_statement cfg.
 Proof.
-  intros A F P T G s rs U. unfold restored.
-  rewrite argv_clause, path_clause, profile_clause, tracing_clause, timers_clause; auto.
-Qed.
-
-(* the smaller repair of sys.argv (in-place assignment) is enough as long as nobody rebound
-   sys.argv / sys.path between kernprof's import and the call *)
-Theorem restores_if_fixed_inplace cfg s rs :
-  fx_argv_inplace cfg = true -> fx_finally cfg = true -> fx_profile cfg = true -> fx_timer cfg = true ->
-  fx_autoprof cfg = true ->
-  ref (argv s) = cap (argv s) -> ref (path s) = cap (path s) -> usable (gp s) = true ->
-  restored s (exec_runs cfg s rs) = true.
-Proof.
-  intros A F P T G Ha Hp U. unfold restored.
+  intros A F P T G s rs U Q. unfold restored.
   rewrite argv_clause, path_clause, profile_clause, tracing_clause, timers_clause; auto.
 Qed.
 
 (* ---- in-process runs are invisible to everything that happens around them ------------------------ *)
-Lemma run_gp_fixed cfg o p s : fx_profile cfg = true -> gp (snd (main cfg o p s)) = gp s.
-Proof. intros H. rewrite main_eq. cbn [snd gp]. unfold gp_after. rewrite H. destruct (gp s). reflexivity. Qed.
+Lemma run_gp_fixed cfg o p s : fx_profile cfg = true -> gp (snd (main cfg o p s)) = gp_setup o (gp s).
+Proof. intros H. rewrite main_eq. cbn [snd gp]. unfold gp_after. rewrite H. destruct (gp_setup o (gp s)). reflexivity. Qed.
 
+(* one run: nothing observable changes except what its setup file did to the decorator *)
 Lemma run_veq cfg o p s :
   fx_at_call cfg = true -> fx_finally cfg = true -> fx_profile cfg = true -> fx_timer cfg = true ->
   (fx_autoprof cfg = true \/ registers o p = false) ->
-  veq (snd (main cfg o p s)) s.
+  veq (snd (main cfg o p s)) (set_gp (gp_setup o (gp s)) s).
 Proof.
   intros A F P T G. unfold veq.
   assert (Hr : restoring cfg (fst (main cfg o p s)) = true)
@@ -480,69 +485,85 @@ Proof.
   cbn zeta in *. rewrite A1, P1, run_gp_fixed, run_tracing, run_timers; auto.
 Qed.
 
-Lemma user_veq a s1 s2 : is_user a = true -> veq s1 s2 -> veq (do_user a s1) (do_user a s2).
-Proof.
-  intros U (A & P & G & T & M). unfold cur in A.
-  destruct a; [discriminate| | |]; unfold do_user; rewrite G; try rewrite A.
-  - destruct (enable (gp s2) None) as [[u g]|e]; unfold veq; cbn; auto.
-  - destruct (disable (gp s2)) as [[u g]|e]; unfold veq; cbn; auto.
-  - destruct (decorate (gp s2) _ _ _) as [[u g]|e]; unfold veq; cbn; auto.
-Qed.
-
-(* Interleave kernprof.main runs with ordinary use of the decorator in any way: what can be
-   observed at the end is what the ordinary uses alone would have produced. *)
 Definition act_registers (a : act) : bool := match a with ARun o p => registers o p | _ => false end.
 Definition no_registering_act (acts : list act) : bool := forallb (fun a => negb (act_registers a)) acts.
 
+(* Interleave kernprof.main runs with ordinary use of the decorator in any way: argv, path, trace
+   slot and threads end as they started, and the decorator object ends exactly as the ordinary
+   uses alone - the host's and those made by the runs' setup files - would have left it. *)
+Lemma exec_acts_cons cfg s a t : exec_acts cfg s (a :: t) = exec_acts cfg (do_act cfg s a) t.
+Proof. reflexivity. Qed.
+
+Lemma veq_step (s s1 sf : St) (g1 gf : GP) :
+  veq s1 (set_gp g1 s) -> veq sf (set_gp gf s1) -> veq sf (set_gp gf s).
+Proof.
+  unfold veq. destruct s, s1. cbn. intros (a1 & a2 & a3 & a4 & a5) (i1 & i2 & i3 & i4 & i5).
+  rewrite i1, i2, i3, i4, i5, a1, a2, a4, a5. auto.
+Qed.
+
 Theorem runs_invisible cfg :
   fx_at_call cfg = true -> fx_finally cfg = true -> fx_profile cfg = true -> fx_timer cfg = true ->
-  forall acts s1 s2, (fx_autoprof cfg = true \/ no_registering_act acts = true) ->
-                     veq s1 s2 -> veq (exec_acts cfg s1 acts) (exec_acts cfg s2 (filter is_user acts)).
+  forall acts s, (fx_autoprof cfg = true \/ no_registering_act acts = true) ->
+                 veq (exec_acts cfg s acts) (set_gp (user_gp acts (cur (argv s)) (gp s)) s).
 Proof.
-  intros A F P T. induction acts as [|a acts IH]; intros s1 s2 G H; [exact H|].
-  assert (G' : fx_autoprof cfg = true \/ no_registering_act acts = true).
-  { destruct G as [G|G]; [left; exact G|right]. cbn [no_registering_act forallb] in G. apply andb_prop in G as [_ G]. exact G. }
-  cbn [filter]. destruct (is_user a) eqn:U.
-  - cbn [exec_acts fold_left]. apply IH; [exact G'|]. destruct a; [discriminate|..]; cbn [do_act]; apply user_veq; auto.
-  - destruct a as [o p| | |]; try discriminate. cbn [exec_acts fold_left do_act]. apply IH; [exact G'|].
-    assert (Gr : fx_autoprof cfg = true \/ registers o p = false).
-    { destruct G as [G|G]; [left; exact G|right]. cbn [no_registering_act forallb act_registers] in G.
-      apply andb_prop in G as [G _]. apply negb_true_iff in G. exact G. }
-    destruct (run_veq cfg o p s1 A F P T Gr) as (a1 & a2 & a3 & a4 & a5).
-    destruct H as (h1 & h2 & h3 & h4 & h5). unfold veq. rewrite a1, a2, a3, a4, a5. auto.
+  intros A F P T. induction acts as [|a acts IH]; intros s G.
+  - unfold veq. destruct s; cbn; auto.
+  - assert (G' : fx_autoprof cfg = true \/ no_registering_act acts = true).
+    { destruct G as [G|G]; [left; exact G|right]. cbn [no_registering_act forallb] in G. apply andb_prop in G as [_ G]. exact G. }
+    rewrite exec_acts_cons. destruct a as [o p|u].
+    + assert (Gr : fx_autoprof cfg = true \/ registers o p = false).
+      { destruct G as [G|G]; [left; exact G|right]. cbn [no_registering_act forallb act_registers] in G.
+        apply andb_prop in G as [G _]. apply negb_true_iff in G. exact G. }
+      pose proof (run_veq cfg o p s A F P T Gr) as R.
+      change (do_act cfg s (ARun o p)) with (snd (main cfg o p s)).
+      remember (snd (main cfg o p s)) as s1 eqn:E. clear E.
+      pose proof (IH s1 G') as I.
+      assert (Eav : cur (argv s1) = cur (argv s)) by (destruct R as (r1 & _); destruct s; exact r1).
+      assert (Eg : gp s1 = gp_setup o (gp s)) by (destruct R as (_ & _ & r3 & _); destruct s; exact r3).
+      rewrite Eav, Eg in I. cbn [user_gp]. unfold gp_setup in *.
+      exact (veq_step s s1 _ _ _ R I).
+    + change (do_act cfg s (AUse u)) with (do_uop u s).
+      pose proof (IH (do_uop u s) G') as I. cbn [user_gp].
+      assert (R : veq (do_uop u s) (set_gp (uop_gp u (cur (argv s)) (gp s)) s)) by (unfold veq, do_uop; auto).
+      assert (Eav : cur (argv (do_uop u s)) = cur (argv s)) by (destruct s; reflexivity).
+      assert (Eg : gp (do_uop u s) = uop_gp u (cur (argv s)) (gp s)) by (destruct s; reflexivity).
+      rewrite Eav, Eg in I.
+      exact (veq_step s (do_uop u s) _ _ _ R I).
 Qed.
 
 Corollary runs_invisible_current acts s :
-  veq (exec_acts current s acts) (exec_acts current s (filter is_user acts)).
-Proof. apply runs_invisible; try reflexivity; [left; reflexivity|]. unfold veq. auto. Qed.
+  veq (exec_acts current s acts) (set_gp (user_gp acts (cur (argv s)) (gp s)) s).
+Proof. apply runs_invisible; try reflexivity. left; reflexivity. Qed.
 
 (* ---- the tree as it is (after the five repairs) satisfies all of C19 ---------------------------- *)
 Theorem restores_current : C19_statement current.
 Proof. apply restores_if_fixed; reflexivity. Qed.
 
 Corollary restores_current_run s o p :
-  usable (gp s) = true -> restored s (snd (main current o p s)) = true.
-Proof. intros U. exact (restores_current s [(o, p)] U). Qed.
+  usable (gp s) = true -> setup_uses o = [] -> restored s (snd (main current o p s)) = true.
+Proof.
+  intros U Q. apply (restores_current s [(o, p)] U). cbn [setup_silent forallb fst]. rewrite Q. reflexivity.
+Qed.
 
 (* ---- what held before a77d816 (kept: it is a theorem about every cfg with the four repairs) ----- *)
 (* for ALL sequences four clauses hold; the fifth (no profiler left enabled) holds when no run
    executes auto-profiling registration statements (-l -p with a selection matching an import) *)
 Theorem restores_current_partial s rs :
-  usable (gp s) = true ->
+  usable (gp s) = true -> setup_silent rs = true ->
   argv_ok s (exec_runs current s rs) = true /\ path_ok s (exec_runs current s rs) = true
   /\ profile_ok s (exec_runs current s rs) = true /\ timers_ok s (exec_runs current s rs) = true
   /\ (no_registration rs = true -> restored s (exec_runs current s rs) = true).
 Proof.
-  intros U.
-  assert (A : argv_ok s (exec_runs current s rs) = true) by (apply argv_clause; left; reflexivity).
-  assert (P : path_ok s (exec_runs current s rs) = true) by (apply path_clause; left; reflexivity).
-  assert (G : profile_ok s (exec_runs current s rs) = true) by (apply profile_clause; [reflexivity|exact U]).
+  intros U Q.
+  assert (A : argv_ok s (exec_runs current s rs) = true) by (apply argv_clause; [reflexivity|left; reflexivity]).
+  assert (P : path_ok s (exec_runs current s rs) = true) by (apply path_clause; [reflexivity|left; reflexivity]).
+  assert (G : profile_ok s (exec_runs current s rs) = true) by (apply profile_clause; [reflexivity|exact U|exact Q]).
   assert (T : timers_ok s (exec_runs current s rs) = true) by (apply timers_clause; left; reflexivity).
   repeat split; try assumption.
   intros N. unfold restored. rewrite A, P, G, T, tracing_clause; [reflexivity|right; exact N].
 Qed.
 
-Definition opts_timed : Opts := mkOpts true false false None 1 ["prog.py"] "" "/T".
+Definition opts_timed : Opts := mkOpts true false false None [] 1 ["prog.py"] "" "/T".
 
 (* ---- every one of the four repairs is necessary: a main lacking it violates its clause ---------- *)
 Lemma argv_needs_repair cfg :
@@ -588,7 +609,7 @@ Qed.
 
 (* auto-profiling: the registration statements enable the LineProfiler and nothing disables it.
    One import matched by -p is enough; the program may end any way it likes. *)
-Definition registering : Prog := mkProg Return false false true 1 [].
+Definition registering : Prog := mkProg Return false false false false true 1 [].
 Lemma autoprof_needs_balance cfg :
   fx_autoprof cfg = false ->
   exists s o p, usable (gp s) = true /\ tracing s = None /\ registers o p = true
@@ -609,24 +630,26 @@ Proof. vm_compute. split; reflexivity. Qed.
 (* in particular the tree before the repairs violated C19 *)
 Lemma unrepaired_refuted : ~ C19_statement unrepaired.
 Proof.
-  intros H. specialize (H st0 [(opts0, returns)] eq_refl). vm_compute in H. discriminate.
+  intros H. specialize (H st0 [(opts0, returns)] eq_refl eq_refl). vm_compute in H. discriminate.
 Qed.
 
 (* ---- non-vacuity ---------------------------------------------------------------------------- *)
-Definition opts_module : Opts := mkOpts true false true (Some "/T/setupd") 1 ["mod"; "x"] "" "/T".
+Definition opts_module : Opts := mkOpts true false true (Some "/T/setupd") [] 1 ["mod"; "x"] "" "/T".
+(* a setup file that enables the explicit profiler and decorates something *)
+Definition opts_setup_uses : Opts := mkOpts true false false (Some "setupd") [UEnable; UDecorate] 0 ["prog.py"] "" "/T".
 
 Example nonvacuous :
   (* the hypothesis of the statement holds of a real-looking interpreter *)
   usable (gp st0) = true
   (* the present behaviour restores everything on the runs that refuted the unrepaired one *)
   /\ restored st0 (exec_runs current st0 [(opts0, returns); (opts0, raises); (opts_timed, returns);
-                                           (opts_module, mkProg Exc true true true 0 [Fire; Fire; DumpDone])]) = true
+                                           (opts_module, mkProg Exc true true true true true 0 [Fire; Fire; DumpDone])]) = true
   /\ restored st0 (exec_runs unrepaired st0 [(opts0, returns)]) = false
   /\ fst (main current opts0 raises st0) = Raised
   (* during the run the pieces really are changed (the model is not the identity) *)
-  /\ cur (path (snd (main_body current opts_module (mkProg Return true false true 0 []) st0)))
-     = ["/T/setupd"; "/T"; "/lib"; "/prog-added"]
-  /\ cur (argv (snd (main_body current opts_module (mkProg Return false true true 0 []) st0))) = ["mod"; "x"; "prog-added"].
+  /\ cur (path (snd (main_body current opts_module (mkProg Return true false true false true 0 []) st0)))
+     = ["/T/setupd"; "/T"; "/lib"; "/prog-added"; "/prog-rebound"]
+  /\ cur (argv (snd (main_body current opts_module (mkProg Return false true false true true 0 []) st0))) = ["mod"; "x"; "prog-added"; "prog-rebound"].
 Proof. vm_compute. repeat split; reflexivity. Qed.
 
 (* ---- executable comparison used by the case shards ---------------------------------------------- *)
@@ -693,7 +716,7 @@ Fixpoint acts_match (cfg : Fixes) (s : St) (acts : list act) (os : list (seen * 
   | [], [] => true
   | a :: t, (ob, code) :: ot =>
       run_matches s (act_result cfg s a) (do_act cfg s a) ob
-      && match a with ADecorate => Z.eqb (use_code (gp s) (cur (argv s))) code | _ => true end
+      && match a with AUse UDecorate => Z.eqb (use_code (gp s) (cur (argv s))) code | _ => true end
       && acts_match cfg (do_act cfg s a) t ot
   | _, _ => false
   end.
@@ -717,8 +740,33 @@ Fixpoint spec_bits (prev : seen) (acts : list act) (os : list (seen * Z)) : Z :=
   | a :: t, (ob, code) :: ot =>
       Z.lor (match a with
              | ARun _ _ => step_bits prev ob
-             | ADecorate => if Z.eqb code 2 || Z.eqb code 3 then 4 else 0
+             | AUse UDecorate => if Z.eqb code 2 || Z.eqb code 3 then 4 else 0
              | _ => 0
              end) (spec_bits ob t ot)
   | _, _ => 0
+  end.
+
+(* what C14 needs of all this: the decorator object after runs interleaved with ordinary use *)
+Lemma decorator_under_kernprof acts s :
+  gp (exec_acts current s acts) = user_gp acts (cur (argv s)) (gp s).
+Proof. exact (proj1 (proj2 (proj2 (runs_invisible_current acts s)))). Qed.
+
+Example decorator_under_kernprof_example :
+  gp (exec_acts current st0 [ARun opts_setup_uses raises; AUse UDecorate])
+  = mkGP (Some true) (Some (Own 1)) "profile_output" 1 1
+  /\ gp (exec_acts current st0 [ARun opts0 raises; AUse UDecorate]) = mkGP (Some false) None "profile_output" 0 0.
+Proof. vm_compute. split; reflexivity. Qed.
+
+(* C14 under kernprof, on the implementation's own observations: after every step (a kernprof run,
+   or an ordinary use by the host) the decorator's decision and profiler are what the stand-alone
+   rules give for the ordinary uses alone, and every decoration answers by those rules *)
+Fixpoint decorator_spec_ok (acts : list act) (av : list string) (g : GP) (os : list (seen * Z)) : bool :=
+  match acts, os with
+  | [], [] => true
+  | a :: t, (ob, code) :: ot =>
+      let g' := user_gp [a] av g in
+      opt_eqb Bool.eqb (f_enabled g') (sn_enabled ob) && opt_eqb prof_eqb (f_profile g') (sn_profile ob)
+      && match a with AUse UDecorate => Z.eqb (use_code g av) code | _ => true end
+      && decorator_spec_ok t av g' ot
+  | _, _ => false
   end.
